@@ -1,9 +1,9 @@
-(* Obligation C20/normal_pdf_integrates_to_cdf.  Statement as printed by Coq from Inferno.C20.DistProofs; proof by reference.
+(* Obligation C20/normal_pdf_integrates_to_cdf.  Statement as printed by Coq from Inferno.C20.DistNormal; proof by reference.
    This file contains nothing else, so the statement cannot be weakened quietly. *)
 From Coq Require Import Reals List ZArith Bool.
 From Coquelicot Require Import Coquelicot.
 From Flocq Require Import Core.Raux.
-From Inferno Require Import Base.Num Base.NumR C20.Model C20.Spec C20.DistProofs.
+From Inferno Require Import Base.Num Base.NumR Gen.Distributions C20.Model C20.Spec C20.DistNormal.
 Import ListNotations.
 Open Scope R_scope.
 Theorem normal_pdf_integrates_to_cdf : forall (erf : R -> R) (loc : T RN) (scale a b : R),
@@ -11,5 +11,5 @@ Theorem normal_pdf_integrates_to_cdf : forall (erf : R -> R) (loc : T RN) (scale
   0 < scale ->
   is_RInt (fun x : R => normal_pdf RN (2 * PI) x loc scale) a b
     (normal_cdf RN erf b loc scale - normal_cdf RN erf a loc scale).
-Proof. exact (@Inferno.C20.DistProofs.normal_pdf_integrates_to_cdf). Qed.
+Proof. exact (@Inferno.C20.DistNormal.normal_pdf_integrates_to_cdf). Qed.
 Print Assumptions normal_pdf_integrates_to_cdf.
